@@ -13,9 +13,9 @@ from core import Case, enc_call, guard, s2c, run_model, COQ, VERIF
 ID = "C12"
 PROOF_FILE = "Properties/C12.v"
 THEOREMS = ["C12_whole", "C12_last", "C12_last_is_final_window", "C12_local_global", "C12_revcomp", "C12_substring_test",
-            "C12_constructor", "C12_float_window_rule", "C12_float_short_rule"]
+            "C12_constructor", "C12_float_window_rule", "C12_float_short_rule", "C12_float_filter_is_integer_filter"]
 from axioms import FLOAT_ALLOWED as ALLOWED_AXIOMS, FLOAT_PATTERNS as ALLOWED_AXIOM_PATTERNS  # noqa
-CONE = ["Proofs/FilterProofs.v", "Proofs/ThresholdProofs.v", "Filter.v", "Thresholds.v", "FilterSpec.v", "Spec.v", "Py.v"]
+CONE = ["Proofs/FilterProofs.v", "Proofs/ThresholdProofs.v", "Proofs/FilterFloatProofs.v", "FilterFloat.v", "Filter.v", "Thresholds.v", "FilterSpec.v", "Spec.v", "Py.v"]
 MODEL_FUNCTIONS = ["LocalBioFilter.__init__", "LocalBioFilter.valid"]
 RULE = ("strings over ACGTNacgt- of length 0..3k (plus ACGT-only strings and reverse complements), configurations from a grid: "
         "k = 1..8, run limit absent / 1..k (incl. = k), GC range absent or from a grid with degenerate [x,x], [0,1], asymmetric "
